@@ -280,7 +280,21 @@ mod driver {
         let counters = Arc::new(RwLock::new(map));
         let stats = Arc::new(Mutex::new(CounterStats::default()));
         let rt = tokio::runtime::Builder::new_current_thread().enable_all().build().unwrap();
-        let sync_ok = rt.block_on(MonotonicCounterSystem::sync_counters(&counters, &target, &stats)).is_ok();
+        let history = case["__params"]["history"].as_bool().unwrap_or(false);
+        let mut sync_ok = if history { true } else { rt.block_on(MonotonicCounterSystem::sync_counters(&counters, &target, &stats)).is_ok() };
+        if history {
+            // sync; one more submission; sync again -- every wall-clock reading pinned to the model's second
+            let sys = MonotonicCounterSystem { counters: counters.clone(), storage_path: target.clone(), sync_interval: Duration::from_secs(30), sync_task: None, stats: stats.clone() };
+            vp::clock::reset();
+            vp::clock::push_real(u(case, "now.s"), 0);
+            vp::clock::arm(true);
+            sync_ok = rt.block_on(MonotonicCounterSystem::sync_counters(&counters, &target, &stats)).is_ok();
+            let v = rt.block_on(sys.validate_sequence(&UserId { hash: bytes32(case, "u") }, u(case, "seq"), bytes32(case, "hash")));
+            let s2 = rt.block_on(MonotonicCounterSystem::sync_counters(&counters, &target, &stats)).is_ok();
+            vp::clock::arm(false);
+            vp::clock::reset();
+            sync_ok = sync_ok && v.is_ok() && s2;
+        }
         let mut out = Map::new();
         out.insert("sync_ok".into(), json!(sync_ok));
         {
@@ -347,6 +361,7 @@ mod driver {
             total_processed: u(case, "stats.total_processed"), total_replays: u(case, "stats.total_replays"), total_gaps: u(case, "stats.total_gaps"),
             peers_tracked: u(case, "stats.peers_tracked") as usize, persistence_ops: u(case, "stats.persistence_ops"),
             avg_validation_time_us: u(case, "stats.avg_validation_time_us"), cache_hits: u(case, "stats.cache_hits"), cache_misses: u(case, "stats.cache_misses"),
+            ..Default::default()
         };
         let sys = MonotonicCounterSystem {
             counters: Arc::new(RwLock::new(map)), storage_path: PathBuf::new(), sync_interval: Duration::from_secs(30), sync_task: None, stats: Arc::new(Mutex::new(stats)),
